@@ -920,7 +920,10 @@ class QvmCpu:
                       expected=a.type,
                       got=b.type)
 
-        result = a.value // b.value
+        # QBASIC integer division truncates toward zero
+        result = abs(a.value) // abs(b.value)
+        if (a.value < 0) != (b.value < 0):
+            result = -result
         self.push(a.type, result)
 
     def _exec_ijmp(self):
@@ -1087,7 +1090,10 @@ class QvmCpu:
                       expected=a.type,
                       got=b.type)
 
-        result = a.value % b.value
+        # the remainder takes the sign of the dividend
+        result = abs(a.value) % abs(b.value)
+        if a.value < 0:
+            result = -result
         self.push(a.type, result)
 
     def _exec_mul(self):
